@@ -65,6 +65,27 @@ def ensure_driver():
         raise BuildError("driver build failed:\n" + r.stdout[-4000:])
 
 
+SLOTS = max(1, int(os.environ.get("VERIF_BUILD_SLOTS", "1") or 1))      # tools that analyse many scratch trees at once raise this
+KEEP = max(8, int(os.environ.get("VERIF_CACHE_KEEP", "8") or 8))
+
+
+def _take_slot(kind, cfg):
+    """(lock file handle, target dir) of a free build slot; blocks when all are busy.  Slot 0 is the plain target dir."""
+    import random
+    order = list(range(SLOTS))
+    for k in order:
+        lock = open(os.path.join(CACHE, "build-%s%s%s.lock" % (kind, cfg, "" if k == 0 else ".%d" % k)), "w")
+        try:
+            fcntl.flock(lock, fcntl.LOCK_EX | fcntl.LOCK_NB)
+            return lock, os.path.join(CACHE, "target-%s%s%s" % (kind, cfg, "" if k == 0 else ".%d" % k))
+        except OSError:
+            lock.close()
+    k = random.randrange(SLOTS)
+    lock = open(os.path.join(CACHE, "build-%s%s%s.lock" % (kind, cfg, "" if k == 0 else ".%d" % k)), "w")
+    fcntl.flock(lock, fcntl.LOCK_EX)
+    return lock, os.path.join(CACHE, "target-%s%s%s" % (kind, cfg, "" if k == 0 else ".%d" % k))
+
+
 def facts_path(cfg, repo=REPO):
     return os.path.join(CACHE, "facts-%s-%s.jsonl" % (cfg, tree_hash(repo)))
 
@@ -79,13 +100,11 @@ def build_facts(cfg="B", repo=REPO, quiet=True):
         except OSError:
             pass
         return out
-    lock = open(os.path.join(CACHE, "build-%s.lock" % cfg), "w")
-    fcntl.flock(lock, fcntl.LOCK_EX)
+    lock, target = _take_slot("", cfg)
     try:
         if os.path.exists(out) and os.path.getsize(out) > 0:
             return out
         ensure_driver()
-        target = os.path.join(CACHE, "target-%s" % cfg)
         # cargo's freshness cache would skip the wrapper: drop the member's fingerprints
         for p in glob.glob(os.path.join(target, "debug", ".fingerprint", "rpki-*")):
             shutil.rmtree(p, ignore_errors=True)
@@ -146,13 +165,11 @@ def build_omir(cfg="B", repo=REPO, quiet=True):
         except OSError:
             pass
         return out
-    lock = open(os.path.join(CACHE, "build-omir-%s.lock" % cfg), "w")
-    fcntl.flock(lock, fcntl.LOCK_EX)
+    lock, target = _take_slot("omir-", cfg)
     try:
         if os.path.exists(out) and os.path.getsize(out) > 0:
             return out
         ensure_driver()
-        target = os.path.join(CACHE, "target-omir-%s" % cfg)
         for p in glob.glob(os.path.join(target, "debug", ".fingerprint", "rpki-*")):
             shutil.rmtree(p, ignore_errors=True)
         tmp = out + ".tmp.%d" % os.getpid()
@@ -186,7 +203,7 @@ def build_omir(cfg="B", repo=REPO, quiet=True):
         if not quiet:
             print("omir[%s] built in %.1fs -> %s" % (cfg, time.time() - t0, out))
         fs = sorted(glob.glob(os.path.join(CACHE, "omir-%s-*.jsonl" % cfg)), key=os.path.getmtime)
-        for p in fs[:-4]:
+        for p in fs[:-max(4, KEEP // 2)]:
             if p != out:
                 try:
                     os.remove(p)
@@ -198,8 +215,9 @@ def build_omir(cfg="B", repo=REPO, quiet=True):
         lock.close()
 
 
-def _gc(cfg, keep, max_files=8):
+def _gc(cfg, keep, max_files=None):
     """Keep the cache small: only the most recent fact files per config."""
+    max_files = max_files or KEEP
     fs = sorted(glob.glob(os.path.join(CACHE, "facts-%s-*.jsonl" % cfg)), key=os.path.getmtime)
     for p in fs[:-max_files]:
         if p != keep:
